@@ -465,6 +465,28 @@ def run():
         vals = rng.sample(range(-3, 12), len(inst["t"]))
         inst["t"] = [r[:ai] + [v] + r[ai + 1:] for r, v in zip((list(x) for x in inst["t"]), vals)]
         cases.append((selfjoin_program(rng), [inst, permuted(rng, inst)]))
+    # consecutive takes (they share one SELECT: composed into ONE LIMIT/OFFSET by range_of_ranges), systematically: every
+    # ordered pair of 12 representative ranges, and sampled triples, executed on 7 rows under a total order
+    RANGES = [(None, 1), (None, 2), (None, 3), (None, 4), (1, None), (2, None), (3, None), (1, 2), (2, 3), (2, 4), (3, 3), (3, 5)]
+
+    def take_step(rg):
+        s_, e_ = rg
+        txt = "take %d" % e_ if s_ is None else "take %d..%s" % (s_, "" if e_ is None else e_)
+        return P.Step("take", txt, "TTake %s %s" % ("None" if s_ is None else "(Some (%d))" % s_, "None" if e_ is None else "(Some (%d))" % e_), rng=rg)
+
+    def takes_program(rgs, desc):
+        key = [(desc, ("col", None, "id"))]
+        steps = [P.Step("sort", "sort %s" % P.prql_keys(key), "TSort %s" % P.coq_keys(key), keys=key)] + [take_step(r) for r in rgs]
+        names = list(P.TABLES["t"])
+        steps.append(P.Step("select", "select {%s}" % ", ".join(names), "TSelect [%s]" % "; ".join("(None, ECol None %d%%N)" % P.nid(c) for c in names), final=True))
+        return P.Program(steps, True, names, {"order": key, "key_pos": [(0, desc)]})
+    seqs = [[a, b] for a in RANGES for b in RANGES]
+    trip = [[a, b, c] for a in RANGES for b in RANGES for c in RANGES]
+    rng.shuffle(trip)
+    seqs += trip[: ck.n(40, 600)]
+    inst7 = P.gen_instance(rng, max_rows=7, min_rows=7)
+    for sq in seqs:
+        cases.append((takes_program(sq, rng.random() < 0.3), [inst7]))
     # one hand-built program per open finding the random streams seldom hit
     for _fid, pg, inst in E.directed_known(rng):
         inst = inst or P.gen_instance(rng, max_rows=7, min_rows=5)
